@@ -143,10 +143,20 @@ class Chk:
 		r2 = self._call(self.gs.revcomp, r[1])
 		if r2 != ('ok', s):
 			ctx.violation('revcomp-involution', f'revcomp(revcomp({s!r})) = {r2}', w)
-		if self.rot % 17 == 0:
-			r3 = self._call(self.gs.revcomp, bytearray(s))
+		if self.rot % 3 == 0:
+			ba = bytearray(s)
+			r3 = self._call(self.gs.revcomp, ba)
 			if r3 != ('ok', exp):
 				ctx.violation('revcomp-wrong', f'revcomp(bytearray {s!r}) = {r3}', w)
+			ctx.count('caller_buffer_checks')
+			if bytes(ba) != s:
+				ctx.violation('caller-buffer-modified', f'revcomp modified its bytearray argument in place: {s!r} became {bytes(ba)!r}', w)
+			if len(s) <= 32 and all(x in VALID for x in s) and s:
+				for fn in (self.gk.kmer_to_index, self.gk.kmer_to_index_rc):
+					ba = bytearray(s)
+					self._call(fn, ba)
+					if bytes(ba) != s:
+						ctx.violation('caller-buffer-modified', f'{fn.__name__} modified its bytearray argument in place: {s!r} became {bytes(ba)!r}', w)
 		self.rot += 1
 		ctx.count('revcomp_calls')
 
@@ -268,7 +278,7 @@ def run_shard(sh, ctx):
 
 def finalize(merged, tier, seed, inconclusive):
 	c = merged['counters']
-	for n in ['valid_kmers', 'invalid_kmers_rejected_or_flagged', 'roundtrips', 'index_roundtrips', 'revcomp_calls', 'too_long_kmers', 'type:str', 'type:Seq', 'type:bytearray', 'invalid_text_kmers', 'composed_roundtrips', 'invalid_type:Seq', 'invalid_type:str', 'index_type:np.u8', 'index_type_above_2^53:np.u8', 'index_type:np.u1']:
+	for n in ['valid_kmers', 'invalid_kmers_rejected_or_flagged', 'roundtrips', 'index_roundtrips', 'revcomp_calls', 'too_long_kmers', 'type:str', 'type:Seq', 'type:bytearray', 'invalid_text_kmers', 'composed_roundtrips', 'caller_buffer_checks', 'invalid_type:Seq', 'invalid_type:str', 'index_type:np.u8', 'index_type_above_2^53:np.u8', 'index_type:np.u1']:
 		if c.get(n, 0) == 0:
 			inconclusive.append(f'class never observed: {n}')
 	merged['notes'].setdefault('sanitizer_stage', {})
